@@ -96,6 +96,25 @@ class SG:
                 wrap = True
         return "(" + text + ")" if wrap else text
 
+    STR_BODIES = ["s", "t", "a b", "%d\\n", "\\x41", "\\101", "\\0", "\\1", "\\\\", "\\\"q", "1", "f", "9g", "", "\\x1", "\\t2"]
+
+    def strlit(self):
+        """1-3 adjacent plain string literals.  A piece ending in a hex escape (or
+        an octal escape of fewer than three digits) followed by a piece starting
+        with a digit of that base is finding F39: the pieces are joined textually"""
+        import re
+
+        c = self.c
+        pieces = [c.choice(self.STR_BODIES)]
+        for _ in range(c.below(3)):
+            nxt = c.choice(self.STR_BODIES)
+            prev = pieces[-1]
+            hazard = (re.search(r"\\x[0-9a-fA-F]+$", prev) and re.match(r"[0-9a-fA-F]", nxt)) or (re.search(r"(?<!\\)(\\\\)*\\[0-7]{1,2}$", prev) and re.match(r"[0-7]", nxt))
+            if hazard and not self.on("lit.escape_then_digit_across_pieces"):
+                nxt = "z" + nxt
+            pieces.append(nxt)
+        return " ".join('"%s"' % p for p in pieces)
+
     def ilit(self):
         pool = INT_LITS + (INT_LITS11 if self.c11 else [])
         v = self.c.choice(pool)
@@ -280,7 +299,7 @@ class SG:
             sc[n] = "int"
             return "int %s_n = (%s & 3) + 1; int %s_vla[%s_n]; int %s = (int)sizeof %s_vla;" % (n, self.xi(1, M.BIN["&"]), n, n, n, n)
         if k == 15:
-            return 'const char *%s = "s" "t"; const int *%s_w = (const int *)L"w";' % (n, n)
+            return 'const char *%s = %s; const char %s_a[] = %s; const int *%s_w = (const int *)L"w";' % (n, self.strlit(), n, self.strlit(), n)
         if k == 16 and self.c11:
             r = c.below(5)
             if r == 0:
